@@ -69,9 +69,9 @@ pub proof fn lemma_sig_bytes()
                     vstd::seq_lib::to_multiset_build(pairs_for(kb, vb.subrange(0, j)), (kb, vb[j]));
                     assert(pv(results@).to_multiset() =~= base.add(pairs_for(kb, vb.subrange(0, j + 1)).to_multiset()));
                 }
-//@ after 1 `results.push((key, value));\n            }`
+//@ after 1 `results.push((key, value));<NL>            }`
             proof { assert(vb.subrange(0, vb.len() as int) =~= vb); }
-//@ after 1 `results.push((key, value));\n            }\n        }`
+//@ after 1 `results.push((key, value));<NL>            }<NL>        }`
         proof {
             let n = it.index@;
             lemma_sig_bytes();
@@ -119,6 +119,6 @@ pub proof fn lemma_sig_bytes()
                 assert(str_bytes(result@) =~= render(l.subrange(0, idx)) + seq![0x26u8] + render_pair(l[idx]));
             }
         }
-//@ before 1 `result\n}`
+//@ before 1 `result<NL>}`
     proof { assert(l.subrange(0, l.len() as int) =~= l); }
 //@ end
